@@ -301,15 +301,9 @@ def reader_inputs(rng: random.Random, tier: str, encoded: dict):
         off = rng.randrange(step)
         for x in range(off, 65536, step):
             out.append((fn, x.to_bytes(2, "big")))
-        n3 = 2**24 if thorough else 20000
-        if thorough:
-            # all 3-byte strings for the two base readers only (the others are compositions)
-            if fn in ("read_unsigned_varint", "read_unsigned_varlong"):
-                for x in range(0, 2**24):
-                    out.append((fn, x.to_bytes(3, "big")))
-        else:
-            for _ in range(n3 // len(var_readers)):
-                out.append((fn, rng.getrandbits(24).to_bytes(3, "big")))
+        # (thorough: all 3-byte strings are streamed separately in `run`, see `stream_3byte`)
+        for _ in range(4000):
+            out.append((fn, rng.getrandbits(24).to_bytes(3, "big")))
         for _ in range(400):
             n = rng.randint(4, 12)
             b = bytearray(rng.getrandbits(8) | 0x80 for _ in range(n))
@@ -449,6 +443,21 @@ def run(ctx):
     for (fn, b, res), lr in zip(py_r, lean_r):
         if not pyside.same_outcome(res, lr):
             disagreements.append({"fn": fn, "bytes": b.hex(), "python": res, "model": lr})
+    # thorough: all 2^24 three-byte strings for the two base varint readers (the others are
+    # compositions), streamed in chunks so that memory stays flat
+    stream_n, stream_kinds = 0, {}
+    if ctx.tier == "thorough":
+        for fn in ("read_unsigned_varint", "read_unsigned_varlong"):
+            for hi in range(0, 256, 8):
+                chunk = [x.to_bytes(3, "big") for x in range(hi << 16, (hi + 8) << 16)]
+                pr = [pyside.run_reader(rt[fn], b) for b in chunk]
+                lr = driver.run_parallel([f"prim {fn} {values.hex_tok(b)}" for b in chunk], jobs=14)
+                for b, res, l in zip(chunk, pr, lr):
+                    if not pyside.same_outcome(res, l):
+                        disagreements.append({"fn": fn, "bytes": b.hex(), "python": res, "model": l})
+                    k = res.split()[0] + ("" if res.startswith("ok") else ":" + res.split()[1])
+                    stream_kinds[k] = stream_kinds.get(k, 0) + 1
+                stream_n += len(chunk)
     # tz_aware_from_i64 and write_tagged_field (no reader/writer shape)
     from kio.serial.readers import tz_aware_from_i64
     from kio.serial import writers as W
@@ -480,7 +489,8 @@ def run(ctx):
     nontrivial = sum(1 for fn, b, _ in py_r if len(b) >= 1 and any(b)) + \
         sum(1 for fn, a, _ in py_w if a not in (("I", 0), ("N",)))
     ctx.coverage.update({
-        "evaluations": len(py_r) + len(py_w) + nrt + len(tpy),
+        "evaluations": len(py_r) + len(py_w) + nrt + len(tpy) + stream_n,
+        "exhaustive_3byte_varint_inputs": stream_n, "exhaustive_3byte_outcomes": stream_kinds,
         "distinct_nontrivial": nontrivial,
         "rule": "case = (public function, input); distinct by construction (set); non-trivial = "
                 "reader input has a non-zero byte / writer value is not 0 or None",
